@@ -83,16 +83,19 @@ def recip (x : Array α) : Array α := x.map (fun v => 1 / v)
 def vsqrt (x : Array α) : Array α := x.map sqrt
 def rsqrt (x : Array α) : Array α := x.map (fun v => 1 / sqrt v)
 
-/-- `minimum` of a non-empty slice (`none` stands for `+∞` of the empty fold) -/
+/-- `minimum` of a non-empty slice (`none` stands for `+∞` of the empty fold;
+`f64::min(+∞, NaN) = +∞`, so a NaN met while the accumulator is still `+∞` is skipped —
+checked against `VectorMath::minimum` by the C16 channel `vec.minimum`) -/
 def minimum? (x : Array α) : Option α :=
   x.toList.foldl (fun acc v => match acc with
-    | none => some v
+    | none => if FloatLike.isNaN v then none else some v
     | some r => some (fmin r v)) none
 
-/-- `maximum` (`none` stands for `-∞`) -/
+/-- `maximum` (`none` stands for `-∞`; a NaN met while the accumulator is still `-∞` is
+skipped, as `f64::max(-∞, NaN) = -∞`) -/
 def maximum? (x : Array α) : Option α :=
   x.toList.foldl (fun acc v => match acc with
-    | none => some v
+    | none => if FloatLike.isNaN v then none else some v
     | some r => some (fmax r v)) none
 end
 
